@@ -220,6 +220,11 @@ type scriptedReader struct {
 	queue  []readAns // answers for the calls of the current step
 	reqs   []readReq // requests seen during the current step
 	broken string    // harness-level trouble (script exhausted, ...)
+	// Driver modes: the stream ends at slen (answers are clamped to what is
+	// left) and every request is reported as it happens.
+	clamp bool
+	slen  int
+	hook  func(readReq)
 }
 
 func (r *scriptedReader) Read(p []byte) (int, error) {
@@ -238,9 +243,15 @@ func (r *scriptedReader) Read(p []byte) (int, error) {
 		// contract.
 		k = len(p)
 	}
+	if r.clamp && k > r.slen-r.pos {
+		k = max(r.slen-r.pos, 0)
+	}
 	fillStream(r.salt, p[:k], r.pos)
 	r.pos += k
 	r.reqs = append(r.reqs, readReq{Len: len(p), K: k, Err: a.err})
+	if r.hook != nil {
+		r.hook(r.reqs[len(r.reqs)-1])
+	}
 	e, herr := errOf(a.err)
 	if herr != nil {
 		r.broken = herr.Error()
@@ -486,6 +497,7 @@ type scriptedWriter struct {
 	reqs   []writeReq
 	chunks [][]byte
 	broken string
+	hook   func(chunk []byte, req writeReq) // driver modes: every call is reported as it happens
 }
 
 func (w *scriptedWriter) Write(p []byte) (int, error) {
@@ -499,6 +511,9 @@ func (w *scriptedWriter) Write(p []byte) (int, error) {
 	}
 	w.chunks = append(w.chunks, bytes.Clone(p))
 	w.reqs = append(w.reqs, writeReq{Len: len(p), J: j, Err: a.err})
+	if w.hook != nil {
+		w.hook(p, w.reqs[len(w.reqs)-1])
+	}
 	e, herr := errOf(a.err)
 	if herr != nil {
 		w.broken = herr.Error()
@@ -891,8 +906,14 @@ func recordIO(args []string) error {
 			fwd += o.Req
 		}
 	}
+	// Driver modes: the same objects driven through io.Copy & co.
+	dh, optional, err := recordDrivers(tr, res, nh)
+	if err != nil {
+		return err
+	}
 	if err := tr.Close(); err != nil {
 		return err
 	}
-	return res.Close(map[string]any{"events": tr.N, "histories": nh, "reads": nReads, "writes": nWrites})
+	return res.Close(map[string]any{"events": tr.N, "histories": nh + dh, "reads": nReads, "writes": nWrites,
+		"driver_histories": dh, "optional_interfaces": optional})
 }
